@@ -335,6 +335,7 @@ def run_run(case):
         res.residual("stored_mismatch_over_tol", mism / case["tol"])
         if mism > TOLERANCES["stored_multiple"] * case["tol"]:
             res.violate("stored-potential-not-self-consistent", step_size=AB[case["ab"]][0], step_drag=AB[case["ab"]][1],
+                        under_damped=bool(AB[case["ab"]][1] <= 0.5 and AB[case["ab"]] != (0.1, 0.5)),
                         detail={"case": case, "label": int(fr["attrs"]["step"]), "mismatch": mism, "tol": case["tol"]})
             break
     res.outcome = f"run;{'raised' if raised else 'completed'};maxit={case['maxit']}"
